@@ -279,9 +279,15 @@ let adapter_of_spec s = adapter_of_parts (String.split_on_char '@' s)
 let ufun_of = function "eq" -> UEq | "neq" -> UNeq | "prefix" -> UPrefix | "true" -> UTrue
                        | _ -> failwith "ufun"
 
-type stepk = SOp of op | SQuery of query | SWlog | SReload
+type stepk = SOp of op | SQuery of query | SWlog | SReload | SFresh | SQuery2 of query
 
-let step_of (st : string) : stepk =
+let rec step_of (st : string) : stepk =
+  if String.length st > 2 && String.sub st 0 2 = "?2" then
+    (match step_of ("?" ^ String.sub st 2 (String.length st - 2)) with
+     | SQuery q -> SQuery2 q
+     | _ -> failwith ("step " ^ st))
+  else step_of1 st
+and step_of1 (st : string) : stepk =
   let f = String.split_on_char ':' st in
   let b s = s = "1" in
   match f with
@@ -329,6 +335,7 @@ let step_of (st : string) : stepk =
   | ["?hl"; a; b; d] -> SQuery (QHasLink (dec a, dec b, opt_of d))
   | ["?wl"] -> SWlog
   | ["?rv"] -> SReload
+  | ["FRESH"] -> SFresh
   | _ -> failwith ("step " ^ st)
 
 let errc_str = function
@@ -364,7 +371,7 @@ let run_eng_line (line : string) (spec : string) (ad : string) (flags : string) 
   | (_, Err e) -> "new=" ^ errc_str e
   | (_, Panic) -> "new=P"
   | (s0, Ok _) ->
-    let s = ref s0 and poisoned = ref false in
+    let s = ref s0 and poisoned = ref false and fresh = ref None in
     let outs = if steps = "-" then [] else
         List.map (fun st ->
             if !poisoned then "X" else
@@ -374,6 +381,11 @@ let run_eng_line (line : string) (spec : string) (ad : string) (flags : string) 
                 (match r, o with Panic, OSave -> () | Panic, _ -> poisoned := true | _ -> ());
                 outcome_str r
               | SQuery q -> answer_str (ask ptab !s q)
+              | SFresh ->
+                (match fresh_of !s with
+                 | (fs, Ok _) -> fresh := Some fs; "1"
+                 | _ -> fresh := None; "E")
+              | SQuery2 q -> (match !fresh with Some fs -> answer_str (ask ptab fs q) | None -> "NOFRESH")
               | SWlog -> if !s.e_wlog = [] then "-" else String.concat "+" (List.map event_str !s.e_wlog)
               | SReload ->
                 let ((s', md), r) = reload_view !s in
@@ -956,6 +968,24 @@ let pred_c04 line spec ad flags steps impl =
       | _ -> false end
   | None -> false
 
+(* C18: every query answered by the reconfigured enforcer and, right after, by
+   the freshly built twin (same model text, copy of the adapter contents, same
+   components) must agree *)
+let pred_c18 steps impl =
+  match impl_results impl with
+  | Some outs ->
+    let sts = Array.of_list (steps_list steps) and os = Array.of_list outs in
+    if Array.length sts <> Array.length os then false else begin
+      let ok = ref true in
+      Array.iteri (fun i st ->
+          if String.length st > 2 && String.sub st 0 2 = "?2" && i > 0 then begin
+            let q = "?" ^ String.sub st 2 (String.length st - 2) in
+            if sts.(i - 1) = q && os.(i - 1) <> os.(i) then ok := false
+          end;
+          if st = "FRESH" && os.(i) <> "1" then ok := false) sts;
+      !ok end
+  | None -> false
+
 let pred_eng line spec ad flags steps impl =
   (* a constructor that failed (e.g. a scripted adapter failing the initial load) leaves nothing to judge *)
   if impl_results impl = None && String.length impl >= 5 && String.sub impl 0 5 = "new=E" then "-" else
@@ -971,6 +1001,7 @@ let pred_eng line spec ad flags steps impl =
      | _ -> "0")
   | "C04" -> b01 (try pred_c04 line spec ad flags steps impl with Failure _ -> false)
   | "C07" -> b01 (pred_c07 steps impl)
+  | "C18" -> b01 (pred_c18 steps impl)
   | "C12" -> pred_c12 steps impl
   | "C14" -> b01 (try pred_c14 line spec ad flags steps impl with Failure _ -> false)
   | "C19" ->
